@@ -51,6 +51,64 @@ pub const PROBE_DATA: &[u8] = b"c03-probe";
 /// 40 octets: ICMP message of 48 octets = 24 + 24, fragment boundary on a multiple of 8
 pub const FRAG_PROBE_DATA: &[u8] = b"c03-fragmented-probe-0123456789abcdefghi";
 pub const FRAG_PROBE_ADVANCE_MS: i64 = 61_000;
+/// 152 octets of echo data: ICMPv6 message of 160 = 64 + 96 octets, datagram of 200 octets
+pub const LARGE_PROBE_DATA: [u8; 152] = {
+    let mut d = [0u8; 152];
+    let mut i = 0;
+    while i < 152 {
+        d[i] = 0x30 + (i % 64) as u8;
+        i += 1;
+    }
+    d
+};
+pub const DRAIN_POLLS: usize = 24;
+
+/// Independent reassembly of ONE fragmented 6LoWPAN datagram out of transmitted frames: the
+/// upper-layer payload (everything after the IPv6 header) if FRAG1 + FRAGN cover it completely
+/// and the next header is carried inline.
+pub fn reassemble_6lowpan(frames: &[Vec<u8>]) -> Option<Vec<u8>> {
+    let mut buf: Vec<u8> = vec![];
+    let mut have: Vec<bool> = vec![];
+    let mut tag = None;
+    for f in frames {
+        let Some(h) = mac154_hdr_len(f) else { continue };
+        let p = &f[h..];
+        if p.len() < 4 {
+            continue;
+        }
+        let size = (((p[0] & 7) as usize) << 8) | p[1] as usize;
+        let t = be16(&p[2..]);
+        let (off, data): (usize, &[u8]) = if p[0] >> 3 == 0b11000 {
+            let (n, nh) = iphc_len(&p[4..])?;
+            nh?;
+            (0, &p[4 + n..])
+        } else if p[0] >> 3 == 0b11100 && p.len() >= 5 {
+            ((p[4] as usize * 8).checked_sub(40)?, &p[5..])
+        } else {
+            continue;
+        };
+        if size < 40 {
+            return None;
+        }
+        if tag.is_none() {
+            tag = Some((t, size));
+            buf = vec![0; size - 40];
+            have = vec![false; size - 40];
+        }
+        if tag != Some((t, size)) || off + data.len() > buf.len() {
+            return None;
+        }
+        buf[off..off + data.len()].copy_from_slice(data);
+        for x in &mut have[off..off + data.len()] {
+            *x = true;
+        }
+    }
+    if tag.is_some() && have.iter().all(|x| *x) {
+        Some(buf)
+    } else {
+        None
+    }
+}
 
 /// More device calls than this inside ONE `Interface::poll` is a hang: a healthy poll calls
 /// receive() once per queued frame (we queue one) + once more, and transmit() at most a few
@@ -84,25 +142,39 @@ pub struct Cfg {
     pub variant: u8,
     /// 802.15.4 only: join an IPv6 multicast group (the main worlds do not: see run()).
     pub join_154: bool,
+    /// address configuration: 0 = IPv4 + IPv6 (802.15.4: two IPv6 addresses), 1 = IPv4 only,
+    /// 2 = IPv6 only, 3 = no address at all (no connections can be set up there: the TCP
+    /// sockets stay LISTEN / CLOSED / LISTEN, the DNS query never reaches the wire)
+    pub addrs: u8,
 }
 impl Cfg {
     pub fn name(&self) -> String {
-        format!("{}/{}{}", medium_name(self.medium), ["A", "B", "C"][self.variant.min(2) as usize], if self.join_154 { "+group" } else { "" })
+        format!(
+            "{}/{}{}{}",
+            medium_name(self.medium),
+            ["A", "B", "C"][self.variant.min(2) as usize],
+            ["", "-v4only", "-v6only", "-noaddr"][self.addrs.min(3) as usize],
+            if self.join_154 { "+group" } else { "" }
+        )
     }
     pub fn v6_peers(&self) -> bool {
-        self.variant == 1 || self.medium == Medium::Ieee802154
+        self.variant == 1 || self.medium == Medium::Ieee802154 || self.addrs == 2
     }
     pub fn has_v4(&self) -> bool {
-        self.medium != Medium::Ieee802154
+        self.medium != Medium::Ieee802154 && self.addrs <= 1
+    }
+    pub fn has_v6(&self) -> bool {
+        self.addrs == 0 || self.addrs == 2
     }
     pub fn to_json(&self) -> serde_json::Value {
-        serde_json::json!({"medium": medium_name(self.medium), "variant": self.variant, "join_154": self.join_154})
+        serde_json::json!({"medium": medium_name(self.medium), "variant": self.variant, "join_154": self.join_154, "addrs": self.addrs})
     }
     pub fn from_json(v: &serde_json::Value) -> Option<Cfg> {
         Some(Cfg {
             medium: medium_from(v["medium"].as_str()?)?,
             variant: v["variant"].as_u64()? as u8,
             join_154: v["join_154"].as_bool().unwrap_or(false),
+            addrs: v["addrs"].as_u64().unwrap_or(0) as u8,
         })
     }
 }
@@ -421,13 +493,15 @@ impl World {
         iface.update_ip_addrs(|a| {
             if cfg.has_v4() {
                 a.push(IpCidr::new(ip4(&IFACE4), 24)).unwrap();
+            }
+            if cfg.has_v6() {
                 a.push(IpCidr::new(ip6(&IFACE6), 64)).unwrap();
-            } else {
-                a.push(IpCidr::new(ip6(&IFACE6), 64)).unwrap();
-                a.push(IpCidr::new(ip6(&IFACE6_ULA), 64)).unwrap();
+                if medium == Medium::Ieee802154 {
+                    a.push(IpCidr::new(ip6(&IFACE6_ULA), 64)).unwrap();
+                }
             }
         });
-        if cfg.has_v4() {
+        if medium != Medium::Ieee802154 {
             iface.routes_mut().add_default_ipv4_route(Ipv4Address::new(GW4[0], GW4[1], GW4[2], GW4[3])).map_err(|e| format!("{:?}", e))?;
         }
         iface.routes_mut().add_default_ipv6_route(Ipv6Address::from_octets(GW6)).map_err(|e| format!("{:?}", e))?;
@@ -541,6 +615,8 @@ impl World {
             Medium::Ip => {}
         }
         w.take_tx();
+        // (an interface without any address cannot open or accept connections)
+        if cfg.addrs != 3 {
         // 3. active open + DNS query; read ISN / port / id from the wire
         let (me, peer): (Vec<u8>, Vec<u8>) = if cfg.v6_peers() { (IFACE6.to_vec(), PEER6.to_vec()) } else { (IFACE4.to_vec(), PEER4.to_vec()) };
         let peer_ip = if cfg.v6_peers() { ip6(&PEER6) } else { ip4(&PEER4) };
@@ -584,6 +660,7 @@ impl World {
         let st = w.sockets.get::<tcp::Socket>(w.h.tcp_synsent).state();
         if st != tcp::State::SynSent {
             return Err(format!("tcp_synsent is {:?}", st));
+        }
         }
         // 4b. variant C: the application closes the established connection (FIN-WAIT-1)
         if cfg.variant == 2 {
@@ -840,7 +917,7 @@ impl World {
     /// address the interface owns now. v6/v4: Some(answered) or None when not applicable.
     pub fn probe(&mut self) -> ProbeResult {
         let medium = self.cfg.medium;
-        let mut res = ProbeResult { v6: None, v4: None, frag: None, outcome: Outcome::Ok, log: vec![] };
+        let mut res = ProbeResult { v6: None, v4: None, frag: None, large: None, outcome: Outcome::Ok, log: vec![] };
         self.take_tx();
         self.probe_seq = self.probe_seq.wrapping_add(1);
         let seq = self.probe_seq;
@@ -873,7 +950,7 @@ impl World {
                 res.v6 = Some(out.iter().any(|f| is_echo_reply(medium, true, f, PROBE_IDENT, seq, PROBE_DATA)));
             }
         }
-        if self.cfg.has_v4() {
+        if medium != Medium::Ieee802154 {
             if let Some((target, prober)) = self.v4_probe_addrs() {
                 if medium == Medium::Ethernet {
                     let f = eth(&[0xff; 6], &PROBER_MAC, 0x0806, &arp(1, &PROBER_MAC, &prober, &[0; 6], &target));
@@ -957,6 +1034,50 @@ impl World {
             step!("FRAG1", &mac154(&mac, &a));
             let out = step!("FRAGN", &mac154(&mac, &b));
             res.frag = Some(out.iter().any(|f| is_echo_reply(medium, true, f, PROBE_IDENT, seq, FRAG_PROBE_DATA)));
+            // Third probe: a request whose REPLY needs 6LoWPAN fragmentation (200 octet echo).
+            // The single egress fragmentation buffer may legitimately still hold fragments of
+            // a reply the sequence elicited (one fragment leaves per egress pass), so idle
+            // polls first let it drain; a healthy interface is done after at most
+            // FRAGMENTATION_BUFFER_SIZE / 96 of them.
+            for _ in 0..DRAIN_POLLS {
+                let o = self.advance(0);
+                let out = self.take_tx();
+                if !o.is_ok() {
+                    res.outcome = o;
+                    return;
+                }
+                if out.is_empty() {
+                    break;
+                }
+            }
+            let seq2 = seq.wrapping_add(0x4000);
+            let m = icmp6(&prober, &target, 128, 0, &echo_body(PROBE_IDENT, seq2, &LARGE_PROBE_DATA));
+            let size = (40 + m.len()) as u16;
+            let mut a = frag1(size, 0xc040);
+            a.extend_from_slice(&iphc(&Iphc { tf: 3, hlim: 0, sam: Am::Full, dam: Am::Full }, &prober, &target, Some(58), 64));
+            a.extend_from_slice(&m[..64]);
+            let mut b = fragn(size, 0xc040, 13);
+            b.extend_from_slice(&m[64..]);
+            step!("large FRAG1", &mac154(&mac, &a));
+            let mut got = step!("large FRAGN", &mac154(&mac, &b));
+            // the reply's remaining fragments leave one per poll
+            for _ in 0..DRAIN_POLLS {
+                let o = self.advance(0);
+                let out = self.take_tx();
+                if !o.is_ok() {
+                    res.outcome = o;
+                    return;
+                }
+                if out.is_empty() {
+                    break;
+                }
+                got.extend(out);
+            }
+            res.log.push(format!("large echo: {} frame(s) collected {:?}", got.len(), got.iter().map(|f| classify(medium, f)).collect::<Vec<_>>()));
+            res.large = Some(match reassemble_6lowpan(&got) {
+                Some(icmp) => icmp.len() == m.len() && icmp[0] == 129 && icmp[1] == 0 && icmp[4..] == m[4..],
+                None => false,
+            });
         } else {
             let Some((target, prober)) = self.v4_probe_addrs() else { return };
             let wrap = |ipp: Vec<u8>| match medium {
@@ -983,6 +1104,8 @@ pub struct ProbeResult {
     pub v4: Option<bool>,
     /// fragmented echo request (IPv4 fragments resp. 6LoWPAN FRAG1/FRAGN) answered?
     pub frag: Option<bool>,
+    /// 802.15.4: echo request whose reply needs 6LoWPAN fragmentation answered completely?
+    pub large: Option<bool>,
     pub outcome: Outcome,
     pub log: Vec<String>,
 }
